@@ -403,11 +403,13 @@ func (lb *LoadBalancer) processHealthCheckResponse(backend *Backend, resp *http.
 	}
 
 	// If we get here, the backend is healthy
+	vgate("probe:lock")
 	backend.Mutex.Lock()
 	wasUnhealthy := !backend.IsHealthy
 	backend.IsHealthy = true
 	backend.Mutex.Unlock()
 
+	vgate("probe:mirror")
 	// Update metrics to reflect healthy status
 	if lb.metricsCollector != nil {
 		lb.metricsCollector.UpdateBackendHealth(backend.Name, true)
@@ -530,6 +532,7 @@ func (lb *LoadBalancer) NextBackend(r *http.Request) *Backend {
 
 // MarkBackendUnhealthy marks a backend as unhealthy for a specified duration
 func (lb *LoadBalancer) MarkBackendUnhealthy(backend *Backend, duration time.Duration) {
+	vgate("mark:lock")
 	backend.Mutex.Lock()
 	defer backend.Mutex.Unlock()
 
@@ -546,6 +549,7 @@ func (lb *LoadBalancer) MarkBackendUnhealthy(backend *Backend, duration time.Dur
 
 // IsBackendHealthy checks if a backend is currently healthy
 func (lb *LoadBalancer) IsBackendHealthy(backend *Backend) bool {
+	vgate("hb:read")
 	backend.Mutex.RLock()
 	isHealthy := backend.IsHealthy
 	unhealthyUntil := backend.UnhealthyUntil
@@ -554,12 +558,14 @@ func (lb *LoadBalancer) IsBackendHealthy(backend *Backend) bool {
 	// If it's marked as unhealthy, check if the unhealthy period has expired
 	if !isHealthy && time.Now().After(unhealthyUntil) {
 		// The unhealthy period has expired, mark it as healthy again
+		vgate("hb:expire")
 		backend.Mutex.Lock()
 		// Double-check after acquiring write lock to prevent race condition
 		if !backend.IsHealthy && time.Now().After(backend.UnhealthyUntil) {
 			backend.IsHealthy = true
 			backend.Mutex.Unlock()
 
+			vgate("hb:mirror")
 			// Update metrics to reflect healthy status
 			if lb.metricsCollector != nil {
 				lb.metricsCollector.UpdateBackendHealth(backend.Name, true)
@@ -709,6 +715,7 @@ func (lb *LoadBalancer) findHealthyBackend(r *http.Request) *Backend {
 func (lb *LoadBalancer) proxyRequest(backend *Backend, w http.ResponseWriter, r *http.Request, startTime time.Time) error {
 	// Track the active connection
 	backend.IncrementConnections()
+	vgate("px:pubinc")
 	lb.metricsCollector.UpdateBackendConnections(backend.Name, backend.GetActiveConnections())
 
 	// Create a custom response writer to capture the status code
@@ -723,6 +730,7 @@ func (lb *LoadBalancer) proxyRequest(backend *Backend, w http.ResponseWriter, r 
 	completed := false
 	defer func() {
 		backend.DecrementConnections()
+		vgate("px:pubdec")
 		lb.metricsCollector.UpdateBackendConnections(backend.Name, backend.GetActiveConnections())
 		if !completed {
 			lb.recordRequestMetrics(backend, http.StatusBadGateway, startTime, r)
